@@ -150,7 +150,10 @@ def ts0(ctx, entries: List[str]):
     p = ctx.p
     w = package_walk(p)
     step_names = {"propagate", "propagate_free", "propagate_one_body", "propagate_1"}
-    allowed_prefix = ("sampling.sampler._step_scan", "propagation.")
+    # the typestate runs (TS-3) start at every sampler entry point and follow whatever it calls, closures included: a
+    # step function entered anywhere inside the sampler class is on an analysed path.  Elsewhere (driver, user-facing
+    # helpers) nothing establishes the cache invariant the step relies on.
+    allowed_prefix = ("sampling.sampler.", "propagation.")
     for e, fi in w.sites:
         f = e.data.args[0]
         if f.op == "attr" and f.args[1] in step_names:
